@@ -338,7 +338,27 @@ def check_b(ck, repo):
         okraise = all(f.get(f"{E} in {P}") is False and f.get("self.closest") is False for f in kinds.get("raise", [])) and len(kinds.get("raise", [])) >= 1
         ck.verdict(okcopy and it_ok and okmap and nmap == 2 and okraise, "C13.b", ptr, f"{Y} = {ydef}; {E} = {P}[...]", "labels are mapped through permutation_ on a copy (closest key when allowed, error otherwise)", "label branch does not map every element of a copy of y through permutation_")
     if prob is None:
-        ck.violated("C13.b", ptr, "yp[:, new_perm[i]] = y[:, i]", "probability branch: no column move found")
+        # all columns moved at once: Y[:, [M[i] for i in range(y.shape[1])]] = y
+        from .sem import elementwise
+
+        vec = [x for x in own_nodes(ptr.node) if isinstance(x, ast.Assign) and isinstance(x.targets[0], ast.Subscript) and isinstance(x.targets[0].slice, ast.Tuple) and len(x.targets[0].slice.elts) == 2 and isinstance(x.targets[0].slice.elts[0], ast.Slice) and _t(x.value) == y and isinstance(x.targets[0].value, ast.Name)]
+        okv = False
+        if len(vec) == 1:
+            x = vec[0]
+            r_ = elementwise(repo, ptr, x.targets[0].slice.elts[1], x)
+            Yv = x.targets[0].value.id
+            ydef = [xt(x_) for _, x_, _ in guarded_values(repo, ptr, ast.Name(id=Yv, ctx=ast.Load()), x)]
+            if r_ is not None and len(r_[0]) == 1 and isinstance(r_[1], ast.Subscript) and isinstance(r_[1].value, ast.Name) and _t(r_[1].slice) == "__e0":
+                src_ = r_[0][0]
+                M = r_[1].value.id
+                rd = ex.rd(ptr)
+                node = rd.node_of(x)
+                dep = node is not None and rd.depends_on(ast.Name(id=M, ctx=ast.Load()), node, set(), {"permutation_"})
+                okv = src_.replace(" ", "") in (f"range({y}.shape[1])", f"range(0,{y}.shape[1])") and dep and f"{y}.copy()" in ydef
+        if okv:
+            ck.holds("C13.b", ptr, vec[0], "probability columns are moved to their permuted position on a copy (all columns at once)")
+        else:
+            ck.unknown("C13.b", ptr, "yp[:, new_perm[i]] = y[:, i]", "probability branch: no column-by-column move found, and no one-statement scatter Y[:, [M[i] for i in range(n)]] = y this rule reads")
     else:
         l, x = prob
         iv = l.target.id
